@@ -21,4 +21,4 @@ trap 'rm -rf "$TMP"' EXIT
   printf '}}'
 } > "$TMP/overlay.json"
 cd "$REPO"
-timeout 600 go test ${DEMO_TAGS:+-tags "$DEMO_TAGS"} -ldflags=-checklinkname=0 -vet=off -count=1 -overlay "$TMP/overlay.json" -run 'TestDemo' "./$REL" 2>&1
+timeout 600 go test ${DEMO_RACE:+-race} ${DEMO_TAGS:+-tags "$DEMO_TAGS"} -ldflags=-checklinkname=0 -vet=off -count=1 -overlay "$TMP/overlay.json" -run 'TestDemo' "./$REL" 2>&1
